@@ -288,6 +288,23 @@ def run(ctx):
             if v[0] == "agg" and v[1] == "tuple":
                 ok = ok and is_param(v[3][0], 2) and is_param(v[3][1], 3)
         chk.ob("C07.e", adm.path, ok, "descriptions.entry(sanitised name).or_insert((description, unit)) and nothing else" if ok else "an existing description can be replaced (write through the entry / insert): HELP would not show the first description", adm.loc())
+    # ... and is looked up under the name it was stored under: the key of the descriptions.get() whose result becomes the HELP
+    # text is the family's sanitised name as iterated, never a name built afterwards (the unit-suffixed one)
+    rnd_ = (p.method(INNER, "render") or [None])[0]
+    if rnd_ is not None:
+        helps = [c for g_ in rnd_.region() for c in g_.body.calls() if c.is_("formatting::write_help_line")]
+        nlook = 0
+        for c in helps:
+            a = arg_syms(c)
+            gets = [x for x in sym_walk(a[2]) if isinstance(x, tuple) and x and x[0] == "call" and isinstance(x[1], str) and strip_generics(x[1]).split("::")[-1] in ("get", "get_key_value") and len(x[2]) == 2]
+            if not gets:
+                chk.ob("C07.e", f"{rnd_.path} [HELP looked up under the stored name]", False, f"cannot see the descriptions lookup behind the HELP text ({sym_str(a[2])[:80]})", c.loc())
+                continue
+            nlook += 1
+            built = [x for g1 in gets for x in sym_walk(g1[2][1]) if isinstance(x, tuple) and x and x[0] == "call" and isinstance(x[1], str) and strip_generics(x[1]).split("::")[-1] in ("format", "push_str", "concat", "join", "add")]
+            chk.ob("C07.e", f"{rnd_.path} [HELP looked up under the stored name]", not built, "the description is fetched under the iterated family name" if not built else "the description is fetched under a name assembled at render time (the unit-suffixed family name): descriptions are stored under the plain sanitised name, so the HELP line is lost, or another metric's text is shown, whenever a suffix is appended", c.loc())
+        if not nlook and not helps:
+            chk.unrecognised("C07.e", f"{rnd_.path} [HELP looked up under the stored name]", "no write_help_line call in render")
     impls = recorder_impls(p)
     rec = None
     for (self_ty, ip), ms in impls.items():
